@@ -63,6 +63,7 @@ const (
 )
 
 type callScript struct {
+	zoneLo bool // this call requests hardware timestamps on lo: its exchanges fall back to the clock
 	reset bool
 	srv   int
 	gap   gapKind
@@ -170,6 +171,7 @@ var (
 // what the worker reports about itself at the end (case kind c03.kstamps)
 var stat struct {
 	attempts, fbTx, fbRx   int64 // ordinary attempts; those whose transmit / receive stamp was a clock reading
+	famN, famFb            [3]int64 // ... per family (IPv4, IPv6, SCION), calls that ask for the fallback left out
 	histories, dropped     int64 // histories scripted; histories that could not be recorded in maxTries runs
 	retried                int64
 	portPairs, samePorts   int64 // consecutive requests of one call; those sent from the same source port
@@ -253,7 +255,8 @@ func runWorker(a lib.Args, wi int) {
 			}
 		}
 		w.Case("c03.kstamps", "", lib.V(lib.I(stat.attempts), lib.I(stat.fbTx), lib.I(stat.fbRx),
-			lib.I(stat.histories), lib.I(stat.dropped), lib.I(stat.portPairs), lib.I(stat.samePorts)), "")
+			lib.I(stat.histories), lib.I(stat.dropped), lib.I(stat.portPairs), lib.I(stat.samePorts),
+			lib.I(stat.famN[0]), lib.I(stat.famFb[0]), lib.I(stat.famN[1]), lib.I(stat.famFb[1]), lib.I(stat.famN[2]), lib.I(stat.famFb[2])), "")
 	}
 	if stat.dropped > 0 || stat.retried > 0 {
 		fmt.Printf("NOTE worker %d: %d histories run again, %d of %d not recorded after %d runs (peer and client disagree on the number of requests, or an unscripted timeout)\n",
@@ -389,6 +392,7 @@ func genHistory(seed uint64) *histScript {
 				}
 			}
 			cs.reset = r.Intn(12) == 0
+			cs.zoneLo = hs.im && r.Intn(16) == 0
 		}
 		if r.Intn(7) == 0 {
 			cs.srv = 1
@@ -456,7 +460,9 @@ func genHistory(seed uint64) *histScript {
 //        kernel transmit stamp cTxTime1; basic mode (the stored client stamps of
 //        interleaved mode would be out of reach of cTxTime0 themselves);
 //  7     as 0, with a real pause of 2.2 s instead of a scripted clock reading.
-const numWindowVariants = 8
+//  8..11 the client's clock reads 1980 / 2000 / 2024 (a clock that was never set), the
+//        server is 47..68 years behind it (45 years ahead), still within the window; IP and SCION.
+const numWindowVariants = 12
 
 func genWindow(v, wi int) *histScript {
 	const W = time.Duration(1<<31) * time.Second
@@ -477,6 +483,18 @@ func genWindow(v, wi int) *histScript {
 		}
 		c3 := callScript{acts: []action{norm(inside), norm(inside), norm(inside)}}
 		hs.calls = []callScript{c1, c2, c3}
+	case 8, 9, 10, 11:
+		hs.im = false
+		hs.scion = v == 9 || v == 11
+		year := time.Duration(365*86400) * time.Second
+		at := []time.Time{time.Date(1980, 3, 1, 0, 0, 0, 0, time.UTC), time.Date(2000, 7, 1, 0, 0, 0, 0, time.UTC),
+			time.Date(2024, 6, 1, 0, 0, 0, 0, time.UTC), time.Date(2000, 2, 1, 0, 0, 0, 0, time.UTC)}[v-8]
+		hs.shift = at.Sub(time.Now()) + time.Duration(wi)*time.Hour
+		d := []time.Duration{-47 * year, -50 * year, -67*year - 300*24*time.Hour, 45 * year}[v-8]
+		for i := 0; i < 3; i++ {
+			th := hs.shift + d + time.Duration(i)*jit
+			hs.calls = append(hs.calls, callScript{acts: []action{norm(th), norm(th), norm(th)}})
+		}
 	default:
 		hs.im = false
 		hs.shift = time.Duration(70*365*86400+wi*3600) * time.Second
@@ -494,6 +512,7 @@ func genWindow(v, wi int) *histScript {
 // ---- running one history ----
 type attObs struct {
 	now0    event
+	fbTxVal time.Time // the clock reading taken instead of the kernel transmit stamp
 	fbTx    bool
 	fbRx    bool
 	recvAt  time.Time
@@ -533,9 +552,12 @@ func parseEvents(evs []event) ([]attObs, bool) {
 			case strings.Contains(e.msg, "rx"):
 				cur.fbRx = true
 			case strings.Contains(e.msg, "tx"):
-				cur.fbTx = true
+				cur.fbTx, cur.fbTxVal = true, evs[i-1].val
 			default:
 				cur.fbTx, cur.fbRx = true, true
+				if cur.fbTxVal.IsZero() {
+					cur.fbTxVal = evs[i-1].val
+				}
 			}
 		case e.kind == evLog && e.logger == 1 && e.level == slog.LevelDebug && e.hasOff:
 			ee := e
@@ -699,6 +721,7 @@ func runHistory(w *lib.Writer, hs *histScript) bool {
 	var allAtt []attObs
 	lossSeen, ntHist := false, false
 	var hAttempts, hFbTx, hFbRx, hPairs, hSame int64
+	var hFamN, hFamFb [3]int64
 
 	for i, cs := range hs.calls {
 		before := snapPrev()
@@ -776,6 +799,11 @@ func runHistory(w *lib.Writer, hs *histScript) bool {
 		} else {
 			ctx, cancel = context.WithTimeout(context.Background(), longWait)
 		}
+		c.zone = ""
+		if cs.zoneLo {
+			c.zone = "lo"
+			tags["fallback-midchain"] = true
+		}
 		ts, off, err := c.measure(ctx, cs.srv)
 		cancel()
 		rec.mu.Lock()
@@ -816,6 +844,18 @@ func runHistory(w *lib.Writer, hs *histScript) bool {
 				tags["unblocked"] = true
 			}
 			hAttempts++
+			if !cs.zoneLo {
+				fam := 0
+				if hs.v6 {
+					fam = 1
+				} else if hs.scion {
+					fam = 2
+				}
+				hFamN[fam]++
+				if at.fbTx {
+					hFamFb[fam]++
+				}
+			}
 			if at.fbTx {
 				hFbTx++
 			}
@@ -847,6 +887,9 @@ func runHistory(w *lib.Writer, hs *histScript) bool {
 			}
 			// inputs of the model: the clock reading, the transmit stamp, the reference, the datagrams
 			ctx1 := at.now0.real
+			if at.fbTx && !at.fbTxVal.IsZero() {
+				ctx1 = at.fbTxVal
+			}
 			crxT := at.end
 			if at.hasRecv {
 				crxT = at.recvAt
@@ -978,6 +1021,10 @@ func runHistory(w *lib.Writer, hs *histScript) bool {
 	}
 	thePeer.mu.Unlock()
 	stat.attempts += hAttempts
+	for i := range hFamN {
+		stat.famN[i] += hFamN[i]
+		stat.famFb[i] += hFamFb[i]
+	}
 	stat.fbTx += hFbTx
 	stat.fbRx += hFbRx
 	stat.portPairs += hPairs
